@@ -257,3 +257,92 @@ def callers_within(prog, fn, allowed_re):
     cs = prog.callers_of(fn.id)
     bad = [c for c in cs if not re.search(allowed_re, c.fn.id)]
     return cs, bad
+
+
+# ----------------------------------------------------------------------------- branch edges (A2, edge form)
+
+
+def bool_switches(fn, cond_re):
+    """Switches on a boolean whose condition matches cond_re -> list of dict(bb, true, false, cond)."""
+    out = []
+    for i, b in enumerate(fn.blocks):
+        t = b["t"]
+        if t[0] != "switch" or t[4] != "bool":
+            continue
+        c = fn.expr(t[1])
+        neg = False
+        inner = c
+        while inner.k == "un" and inner.a[0] == "Not":
+            inner = inner.a[1]
+            neg = not neg
+        if not re.search(cond_re, str(inner)):
+            continue
+        f_t = None
+        for v, tgt in t[2]:
+            if int(v) == 0:
+                f_t = tgt
+        t_t = t[3]
+        if f_t is None:
+            continue
+        if neg:
+            t_t, f_t = f_t, t_t
+        out.append({"bb": i, "true": t_t, "false": f_t, "cond": inner})
+    return out
+
+
+def discr_switches(fn, scrut_re):
+    """Switches on discr(<expr matching scrut_re>) -> list of dict(bb, edges={val: tgt}, otherwise=tgt, vals)."""
+    out = []
+    for i, b in enumerate(fn.blocks):
+        t = b["t"]
+        if t[0] != "switch":
+            continue
+        c = fn.expr(t[1])
+        if c.k != "discr" or not re.search(scrut_re, str(c.a[0])):
+            continue
+        out.append({"bb": i, "edges": {int(v): tgt for v, tgt in t[2]}, "otherwise": t[3], "scrut": c.a[0]})
+    return out
+
+
+def variant_target(fn, sw, val):
+    """Target block of a discriminant switch for variant value `val` (explicit arm, else the otherwise arm unless it
+    is the `unreachable` block)."""
+    if val in sw["edges"]:
+        return sw["edges"][val]
+    return sw["otherwise"]
+
+
+def reach_avoiding_edges(fn, src, edges):
+    """Blocks reachable from src when the (from_bb, to_bb) pairs in `edges` are deleted."""
+    return fn.reachable_from(src, avoid_edges=set(edges))
+
+
+def entry_roots(prog, fn, is_entry=lambda f: False, limit=20000):
+    """Upward closure over callers: the set of functions with no callers, or satisfying is_entry, from which `fn` is
+    reachable. -> (roots, all_fns_on_the_way)"""
+    seen = {}
+    roots = {}
+    stack = [fn]
+    while stack and len(seen) < limit:
+        f = stack.pop()
+        if f.id in seen:
+            continue
+        seen[f.id] = f
+        if is_entry(f):
+            roots[f.id] = f
+            continue
+        cs = prog.callers_of(f.id)
+        # a closure body is "called" by its creator
+        if not cs:
+            roots[f.id] = f
+        for c in cs:
+            if c.fn.id not in seen:
+                stack.append(c.fn)
+    return roots, seen
+
+
+def call_of_expr(e):
+    """CallSite object carried by a `call` expression node (or None)."""
+    if e is not None and e.k == "call" and len(e.a) > 2:
+        return e.a[2]
+    return None
